@@ -501,7 +501,7 @@ fn effects_case(op: &[u64]) -> Vec<u64> {
     };
     talloc::record(false);
     let evs = talloc::drain();
-    let bad = evs.iter().filter(|e| matches!(e, Ev::BadDtor { .. } | Ev::BadRead { .. } | Ev::BadDealloc { .. } | Ev::UnknownDealloc { .. })).count() as u64;
+    let bad = evs.iter().filter(|e| matches!(e, Ev::BadDtor { .. } | Ev::BadRead { .. } | Ev::BadDealloc { .. } | Ev::UnknownDealloc { .. } | Ev::Overrun { .. })).count() as u64;
     let dt = evs.iter().filter(|e| matches!(e, Ev::Dtor { .. })).count() as u64;
     match r {
         Some((status, same)) => vec![status, same, bad, dt],
